@@ -128,6 +128,15 @@ class EnvScenario(StateScenario):
         h["p_invalid"] = 0.1
         h["p_env_invalid"] = rng.choice([0.0, 0.0, 0.15])
         h["env_seed"] = rng.randrange(1 << 30)
+        # the environment of the first session is part of the case (later ones are recorded in their restart operation),
+        # so that a recorded case does not depend on the value pools it was drawn from
+        from ..world import World
+        tmp = St()
+        tmp.h, tmp.sd, tmp.names = h, sd, env_names(sd)
+        tw = World()
+        values.seed_world(tw)
+        tmp.ctx = values.Ctx(tw)
+        h["env0"] = self.choose_env(tmp, 0)[0]
         return h
 
     # ------------------------------------------------------------------ sessions
@@ -177,11 +186,14 @@ class EnvScenario(StateScenario):
         self.new_session(st, rec)
         return st
 
-    def new_session(self, st, rec):
+    def new_session(self, st, rec, env=None):
         from .. import seams
         seams.reset_process_state()
         w = st.world
-        env, plan = self.choose_env(st, st.session)
+        if env is None and st.session == 0 and "env0" in st.h:
+            env = st.h["env0"]
+        if env is None:
+            env = self.choose_env(st, st.session)[0]       # cases recorded before environments were made part of the case
         st.session += 1
         w.env.clear()
         w.env.update(env)
@@ -189,6 +201,8 @@ class EnvScenario(StateScenario):
         st.B = schema.build(st.sd)
         st.serials = snapshot.Serials()
         st.assigned = set()
+        st.either = {}
+        st.open = set()
         # reference naming rule vs the names the library derived
         rec.check()
         for path, f in ops_iter_fields(st.sd):
@@ -197,8 +211,7 @@ class EnvScenario(StateScenario):
             want = st.names.get(path)
             got_name = got if isinstance(got, str) and got else None
             if got_name != want:
-                rec.fail("C14/naming", "C14/variable-name-differs/%s" % ("explicit" if isinstance(f.get("o", {}).get("env"), str) else "derived"),
-                         "field %s is bound to %r, the naming rule gives %r" % (path, got_name, want))
+                rec.probe("env-attribute-differs-from-naming-rule")      # judged by behaviour below, not by the attribute
         # expected outcome of construction
         bound = {}
         for path, name in st.names.items():
@@ -251,13 +264,16 @@ class EnvScenario(StateScenario):
         """Every field bound to a non-empty valid variable, and not explicitly assigned since, holds the
         validated variable."""
         for path, (name, val, r) in st.bound.items():
-            if path in st.assigned or not isinstance(r, OK):
+            if path in st.assigned or path in st.open or not isinstance(r, OK):
                 continue
             rec.check()
             try:
                 got = ops.resolve(cfg, path)
             except Exception as exc:  # noqa: BLE001
                 got = exc
+            if path in st.either and canon_at(cfg, path) == st.either[path]:
+                rec.probe("assignment-survived-load-of-enclosing-map")
+                continue
             if not ops.matches(r.v, got):
                 node = schema.node_at(st.sd, path)
                 rec.fail("C14/precedence", "C14/variable-not-in-effect/%s/%s" % (route, node["kind"]),
@@ -267,13 +283,13 @@ class EnvScenario(StateScenario):
     # ------------------------------------------------------------------ ops
     def gen_op(self, st, rng):
         if not st.cfgs:
-            return {"op": "restart"}
+            return {"op": "restart", "env": self.choose_env(st, st.session)[0]}
         op = super().gen_op(st, rng)
         op["cfg"] = 0
         return op
 
     def gen_restart(self, st, rng, cfg, tgts, cfgpaths, owners):
-        return {"op": "restart"}
+        return {"op": "restart", "env": self.choose_env(st, st.session)[0]}
 
     def gen_set(self, st, rng, cfg, tgts, cfgpaths, owners):
         # bias assignments towards bound fields
@@ -290,7 +306,7 @@ class EnvScenario(StateScenario):
 
     def apply(self, st, op, rec):
         if op["op"] == "restart":
-            self.new_session(st, rec)
+            self.new_session(st, rec, op.get("env"))
             rec.probe("restart")
             return
         if not st.cfgs:
@@ -315,6 +331,8 @@ class EnvScenario(StateScenario):
             rec.kind("ok" if err is None else "rej")
             if err is None:
                 st.assigned.add(path)
+                st.either.pop(path, None)
+                st.open.discard(path)
                 if path in st.bound:
                     rec.probe("assignment-over-variable")
                     rec.check()
@@ -344,8 +362,13 @@ class EnvScenario(StateScenario):
             touched = set(tree_paths(st.sd, base, tree))
             if err is None:
                 # a (sub)configuration replaced by a loaded map is rebuilt from its defaults (= environment again)
+                # (whether the map replaces or updates the sub-configuration is not stated: an earlier explicit assignment
+                # below it may also survive)
                 for repl in replaced_paths(st.sd, base, tree):
-                    st.assigned = {p for p in st.assigned if not p.startswith(repl + ".")}
+                    for p in [p for p in st.assigned if p.startswith(repl + ".")]:
+                        st.assigned.discard(p)
+                        if p in keep:
+                            st.either[p] = keep[p]
                 # loaded, unbound fields are assigned by the load: a field whose variable is unset or empty (or that
                 # opted out) behaves as if no binding existed, i.e. the document's value is applied
                 snode0 = st.sd["root"] if not base else schema.sub_schema_node(st.sd, schema.node_at(st.sd, base))
@@ -387,7 +410,11 @@ class EnvScenario(StateScenario):
             _, err = self._call(lambda: reset_value(owner, key))
             rec.log("reset", path, type(err).__name__ if err else "ok")
             if err is None:
-                st.assigned = {p for p in st.assigned if p != path and not p.startswith(path + ".")}
+                # what a reset restores for a bound field (variable or declared default) is not part of C14: no claim on
+                # the reset paths until they are assigned again
+                gone = {p for p in st.assigned if p == path or p.startswith(path + ".")}
+                st.assigned -= gone
+                st.open |= {p for p in st.bound if p == path or p.startswith(path + ".")}
         else:
             rec.log("noop")
             return
